@@ -760,9 +760,9 @@ class C14Lemma(LemmaUnit):
                hyps, z3.And(returned == ok, outcome == z3.If(ok, unp(res), unp(remote(exc)))))
 
 
-from contracts.c13 import ServerCreate, ServerCreateBadArgs, ServerCreateTyped, ServerCreateCallable, Managed, ManagedOutside      # noqa: E402  managed() values are live proxies to the hosted value itself
+from contracts.c13 import ServerCreate, ServerCreateBadArgs, ServerCreateTyped, ServerCreateCallable, Managed, ManagedOutside, ProxyDecref, ProxyDecrefInServer      # noqa: E402  managed() values are live proxies to the hosted value itself
 UNITS = [ServerCallMethod, ServerCallMethodTyped, ServeClient, ProxyCallMethod, ProxyCallMethodInServer, GeneratedProxyMethod, MakeProxyType, AutoProxyUnit, DecoratorNames,
-         NamespaceAttr, NamespaceSetAttr, NamespaceDelAttr] + PROXY_METHODS + [ServerCreate, ServerCreateBadArgs, ServerCreateTyped, ServerCreateCallable, Managed, ManagedOutside, C14Lemma]
+         NamespaceAttr, NamespaceSetAttr, NamespaceDelAttr] + PROXY_METHODS + [ServerCreate, ServerCreateBadArgs, ServerCreateTyped, ServerCreateCallable, Managed, ManagedOutside, ProxyDecref, ProxyDecrefInServer, C14Lemma]
 ALWAYS_RUN_SCENARIOS = True      # both batteries together take about 3 s; they are the bounded stand-in for operation sequences
 SCENARIOS = [('BaseProxy._callmethod', 'replay/scenarios/c14_in_server_error.py'), ('', 'replay/scenarios/c14_proxy_vs_direct.py')]
 BOUNDED = [{'function': 'operation sequences through several proxies / threads / a child process', 'method': 'runtime scenario replay/scenarios/c14_proxy_vs_direct.py (differential against local objects)', 'bound': '6 seeds x 60 operations x 3 object kinds + fixed Value/Namespace/managed()/thread/child script', 'counted_as_proved': False}]
